@@ -646,6 +646,8 @@ func (vc *FnVC) doReturn(r *ssa.Return) {
 	env := vc.newEnv(vc.con, vc.fn)
 	env.cur = vc.st
 	env.old = vc.entry
+	env.useLocals = true // internal clauses may name locals (such clauses are skipped at call sites)
+	env.fn = vc.fn
 	for n, v := range vc.paramVals {
 		env.vars[n] = v
 	}
